@@ -148,3 +148,39 @@ def run_text_shapes(chk, gen, runner, shapes, judge, stats, config=None, symboli
                 else:
                     chk.res.inconclusive.append(f"not reproduced natively: {sigp} {oracle}: {msg}")
             chk.sample({'shape': sigp, 'text': text[:300]})
+
+
+def diff_corpus(chk, gen, runner, n, seed, repo='/repo'):
+    """differential validation of the models: the repository's own e2e test inputs are generated by mirsym from the
+    natively linked IR with all-concrete leaves; the text must equal the natively generated text byte for byte"""
+    import random
+    corpus = test_corpus(repo)
+    rnd = random.Random(seed)
+    pick = corpus if n >= len(corpus) else rnd.sample(corpus, n)
+    for name, src in pick:
+        nat = runner.compile(src, backend='ir')
+        out = runner.compile(src, backend='rasn')
+        if not nat.get('ok') or not out.get('ok'):
+            continue
+
+        def run(ex):
+            mods = []
+            for m in nat['ir']:
+                v = gen.load_module(ex, m['tlds'])
+                mods.append(gen.result_text(ex, gen.generate_module(ex, v)))
+            return mods
+        old_budget = chk.ex.max_path_steps
+        res = chk.explore(run)
+        if len(res) != 1 or res[0].kind != 'ok':
+            kinds = [(r.kind, str(r.value)[:120]) for r in res[:2]]
+            if any(k == 'truncated' for k, _ in kinds):
+                chk.res.notes.append(f"differential input {name} skipped: step budget")
+                chk.res.inconclusive[:] = [x for x in chk.res.inconclusive if 'step budget' not in x]
+                continue
+            chk.res.diff_fail.append(f"{name}: {kinds}")
+            continue
+        text = ''.join((pystr(t) if t is not None else '') for k, t, w in res[0].value)
+        if text == out.get('generated'):
+            chk.res.diff_ok += 1
+        else:
+            chk.res.diff_fail.append(f"{name}: generated text differs from the native output")
